@@ -21,14 +21,6 @@ def leafKind : Kind → Bool
   | .listElem k _ => leafKind k
   | _ => false
 
-/-- guard for the pinned-tree defects: an Integer element does not hold a `bool`, a Decimal element holds a
-    finite value that `str()` writes without exponent (exponent ≤ 0, adjusted exponent ≥ −6) -/
-def leafGuard : Kind → Val → Bool
-  | .integer _, .bool _ => false
-  | .decimal _, .dec d => plainDec d
-  | .listElem k _, v => leafGuard k v
-  | _, _ => true
-
 theorem enforceRequired_none_ne_str (r : Bool) (t : Str) : enforceRequired r .none ≠ .ok (.str t) := by
   cases r <;> simp [enforceRequired]
 
@@ -65,40 +57,42 @@ theorem oneOfUnconvert_str (valid : List Str) (r : Bool) (v : Val) (t : Str)
   | _ => simp [oneOfUnconvert, oneOfDefault] at h
 
 theorem integerUnconvert_str (l : Option Nat) (r : Bool) (v : Val) (t : Str)
-    (h : integerUnconvert l r v = .ok (.str t)) : (∃ i, v = .int i ∧ t = pyStrInt i) ∨ (∃ b, v = .bool b) := by
+    (h : integerUnconvert l r v = .ok (.str t)) : ∃ i, v = .int i ∧ t = pyStrInt i := by
   cases v with
   | none => exact absurd h (enforceRequired_none_ne_str r t)
-  | bool b => exact Or.inr ⟨b, rfl⟩
   | int i =>
     simp only [integerUnconvert] at h
     cases hl : intEnforceLength l i with
     | error e => simp [hl, bind, Except.bind] at h
     | ok u =>
       simp [hl, bind, Except.bind, pure, Except.pure] at h
-      exact Or.inl ⟨i, rfl, h.symm⟩
+      exact ⟨i, rfl, h.symm⟩
   | _ => simp [integerUnconvert] at h
 
 theorem decimalUnconvert_str (q : Option Int) (r : Bool) (v : Val) (t : Str)
-    (h : decimalUnconvert q r v = .ok (.str t)) : ∃ d, v = .dec d ∧ t = decToStr d := by
+    (h : decimalUnconvert q r v = .ok (.str t)) : ∃ neg c e, v = .dec (.fin neg c e) ∧ t = decFormatF (.fin neg c e) := by
   cases v with
   | none => exact absurd h (enforceRequired_none_ne_str r t)
   | dec d =>
-    refine ⟨d, rfl, ?_⟩
-    cases q with
-    | none => simp [decimalUnconvert] at h; exact h.symm
-    | some qe =>
-      simp only [decimalUnconvert] at h
-      split at h
-      · simp at h; exact h.symm
-      · simp at h
+    cases d with
+    | fin neg c e =>
+      refine ⟨neg, c, e, rfl, ?_⟩
+      cases q with
+      | none => simp [decimalUnconvert, Dec.isFinite] at h; exact h.symm
+      | some qe =>
+        by_cases hq : sameQuantum (.fin neg c e) qe = true
+        · simp [decimalUnconvert, Dec.isFinite, hq] at h; exact h.symm
+        · simp [decimalUnconvert, Dec.isFinite, hq] at h
+    | inf n => cases q <;> simp [decimalUnconvert, Dec.isFinite, sameQuantum] at h
+    | nan n sg p => cases q <;> simp [decimalUnconvert, Dec.isFinite, sameQuantum] at h
   | _ => simp [decimalUnconvert] at h
 
-/-- **C11 (leaf), partial**: for every element kind and every value (in particular every value `convert` accepts,
-    i.e. every value a model instance can hold) that passes the guard, `unconvert` either refuses or writes a text
-    that is lexically valid for the kind. -/
-theorem C11_leaf_partial (ext : LexExt) (enums : List (List Str)) (k : Kind) (r : Bool) (v : Val) (t : Str)
-    (hk : leafKind k = true) (hg : leafGuard k v = true)
-    (h : unconvert enums k r v = .ok (.str t)) : Lex ext enums k t = true := by
+/-- **C11 (leaf), full strength** (no guard left since the Integer and Decimal repairs): for every element kind of
+    this layer (Bool, String, NagString, OneOf, Integer, Decimal, and ListElement over them, nested to any depth),
+    every parameterisation and **every** value — in particular every value `convert` accepts, i.e. every value a
+    model instance can hold — `unconvert` either refuses or writes a text that is lexically valid for the kind. -/
+theorem C11_leaf_full (ext : LexExt) (enums : List (List Str)) (k : Kind) (r : Bool) (v : Val) (t : Str)
+    (hk : leafKind k = true) (h : unconvert enums k r v = .ok (.str t)) : Lex ext enums k t = true := by
   induction k generalizing r with
   | bool =>
     rcases boolUnconvert_str r v t h with rfl | rfl <;> simp [Lex]
@@ -116,65 +110,42 @@ theorem C11_leaf_partial (ext : LexExt) (enums : List (List Str)) (k : Kind) (r 
       obtain ⟨_, hm⟩ := oneOfUnconvert_str valid r v t h
       simp [Lex, he, hm]
   | integer l =>
-    rcases integerUnconvert_str l r v t h with ⟨i, _, rfl⟩ | ⟨b, rfl⟩
-    · simpa [Lex] using lexInteger_pyStrInt i
-    · simp [leafGuard] at hg
+    obtain ⟨i, _, rfl⟩ := integerUnconvert_str l r v t h
+    simpa [Lex] using lexInteger_pyStrInt i
   | decimal q =>
-    obtain ⟨d, rfl, rfl⟩ := decimalUnconvert_str q r v t h
-    simp only [leafGuard] at hg
-    simpa [Lex] using lexDecimal_plain d hg
+    obtain ⟨neg, c, e, _, rfl⟩ := decimalUnconvert_str q r v t h
+    simpa [Lex] using lexDecimal_formatF neg c e
   | datetime => simp [leafKind] at hk
   | time => simp [leafKind] at hk
   | listElem k ir ih =>
     simp only [leafKind] at hk
-    simp only [leafGuard] at hg
     simp only [unconvert] at h
-    simpa [Lex] using ih ir hk hg h
+    simpa [Lex] using ih ir hk h
   | sub c => simp [leafKind] at hk
   | listAgg c => simp [leafKind] at hk
   | unsupported => simp [leafKind] at hk
 
-example : leafGuard (.decimal (some (-2))) (.dec (.fin true 15065 (-2))) = true := by decide +kernel
-example : leafGuard (.integer (some 3)) (.int (-12)) = true := by decide
+/-- the former witnesses of the defect are now refused or written in plain notation -/
+theorem C11_leaf_former_witnesses :
+    unconvert [] (.decimal none) false (.dec (.fin false 1 2)) = .ok (.str "100".toList) ∧
+    unconvert [] (.decimal none) false (.dec (.fin false 1 (-7))) = .ok (.str "0.0000001".toList) ∧
+    unconvert [] (.decimal none) false (.dec (.fin true 0 2)) = .ok (.str "-0".toList) ∧
+    unconvert [] (.decimal none) false (.dec (.nan false false 0)) = .error .value ∧
+    unconvert [] (.decimal none) false (.dec (.inf true)) = .error .value ∧
+    convert [] (.decimal none) false (.str "NaN".toList) = .error .spec ∧
+    unconvert [] (.integer none) false (.bool true) = .error .type ∧
+    convert [] (.integer none) false (.bool true) = .error .type :=
+  ⟨by rfl, by rfl, by rfl, by rfl, by rfl, by rfl, by rfl, by rfl⟩
 
-/-- **C11 (leaf), full strength**: every value a model instance can hold (anything `convert` returns) is written
-    as a lexically valid text or refused -/
-def C11_leaf_full : Prop :=
-  ∀ (ext : LexExt) (enums : List (List Str)) (k : Kind) (r : Bool) (x v : Val) (t : Str), leafKind k = true →
-    convert enums k r x = .ok v → unconvert enums k r v = .ok (.str t) → Lex ext enums k t = true
-
-/-- false on the pinned tree, witness 1: `Decimal().convert("1E+2")` is accepted and written back as `1E+2` -/
-theorem C11_leaf_full_false : ¬ C11_leaf_full := by
-  intro h
-  have := h LexExt.none [] (.decimal none) false (.str "1E+2".toList) (.dec (.fin false 1 2)) "1E+2".toList rfl
-    (by rfl) (by rfl)
-  exact absurd this (by decide)
-
-/-- witness 2: `Decimal().convert("NaN")` is accepted and written as `NaN` -/
-theorem C11_leaf_full_false_nan :
-    convert [] (.decimal none) false (.str "NaN".toList) = .ok (.dec (.nan false false 0)) ∧
-    unconvert [] (.decimal none) false (.dec (.nan false false 0)) = .ok (.str "NaN".toList) ∧
-    Lex LexExt.none [] (.decimal none) "NaN".toList = false := ⟨by rfl, by rfl, by decide⟩
-
-/-- witness 3: `Integer().convert(True)` keeps the `bool`, which is written as `True` -/
-theorem C11_leaf_full_false_bool :
-    convert [] (.integer none) false (.bool true) = .ok (.bool true) ∧
-    unconvert [] (.integer none) false (.bool true) = .ok (.str "True".toList) ∧
-    Lex LexExt.none [] (.integer none) "True".toList = false := ⟨by rfl, by rfl, by decide⟩
-
-/-- witness 4: a small normalised value: `Decimal('1E-7')` is written with an exponent -/
-theorem C11_leaf_full_false_small :
-    unconvert [] (.decimal none) false (.dec (.fin false 1 (-7))) = .ok (.str "1E-7".toList) ∧
-    Lex LexExt.none [] (.decimal none) "1E-7".toList = false := ⟨by rfl, by decide⟩
-
-/-- refusal: an over-long value of a strict string, a token outside the enumeration, a value of a foreign type
-    are refused rather than written -/
+/-- refusal: an over-long value of a strict string, a token outside the enumeration, a value of a foreign type, a
+    non-finite decimal are refused rather than written -/
 theorem C11_leaf_refuse (l : Nat) (r : Bool) (s : Str) (valid : List Str) :
     (s.length > l → stringUnconvert (some l) true r (.str s) = .error .spec) ∧
     (s ∉ valid → oneOfUnconvert valid r (.str s) = .error .spec) ∧
     (∀ k, boolUnconvert r (.other k) = .error .spec ∧ stringUnconvert (some l) true r (.other k) = .error .type ∧
-      integerUnconvert (some l) r (.other k) = .error .type ∧ decimalUnconvert none r (.other k) = .error .type) := by
-  refine ⟨fun h => ?_, fun h => ?_, fun k => ⟨rfl, rfl, rfl, rfl⟩⟩
+      integerUnconvert (some l) r (.other k) = .error .type ∧ decimalUnconvert none r (.other k) = .error .type) ∧
+    (∀ d : Dec, d.isFinite = false → decimalUnconvert none r (.dec d) = .error .value) := by
+  refine ⟨fun h => ?_, fun h => ?_, fun k => ⟨rfl, rfl, rfl, rfl⟩, fun d hd => by simp [decimalUnconvert, hd]⟩
   · simp [stringUnconvert, strEnforceLength, h, Functor.map, Except.map]
   · simp [oneOfUnconvert, oneOfDefault, h]
 
